@@ -221,12 +221,12 @@ def _job(args):
     return run_config(case, config, seed, which, want_c10, gs_override)
 
 
-def explore(ck, want_c10=False, per_case=None):
+def explore(ck, want_c10=False, per_case=None, quick_gs=None):
     """TLC laws + emission, then fit the real optimiser; returns (cases, records)."""
     from harness.core import pmap
     if ck.quick:
         ck.tlc("Threshold", cfg(4, 2, 3, [1, 2, 3], False), "laws G=2 L=3 N<=4 (CodeHull=Hull, concavity, p_ignore, >= constant)", timeout=900)
-        emits = [(5, 2, 3, [1, 2, 3, 4, 6, 10])]
+        emits = [(5, 2, 3, quick_gs or [1, 2, 3, 4, 6, 10])]
         per_case = per_case or 40
     else:
         ck.tlc("Threshold", cfg(5, 2, 3, [1, 2, 3, 4], False), "laws G=2 L=3 N<=5", timeout=3000)
